@@ -17,10 +17,7 @@ def _ttx_tables(font):
         if tag == "GlyphOrder":
             continue
         buf = io.StringIO()
-        try:
-            font.saveXML(buf, tables=[tag], quiet=True)
-        except TypeError:
-            font.saveXML(buf, tables=[tag])
+        font.saveXML(buf, tables=[tag])
         text = buf.getvalue()
         if tag == "head":
             text = re.sub(r'<(checkSumAdjustment|modified) value="[^"]*"/>', "", text)
